@@ -6,7 +6,8 @@ from vf import families
 
 PROPERTY = "C01"
 BOUNDS = {"all": "(a) values obtained by parsing: all symbolic inputs of extent+slack bytes (<= 40); (b) values constructed directly: "
-                 "one unconstrained integer in [-2^130, 2^130] per fixed-width integer/enum/pointer leaf, LEB128 |v| < 2^34, bit-field "
+                 "one unconstrained integer in [-2^130, 2^130] per fixed-width integer/enum/pointer leaf (flag objects from [0, 2^130]: "
+                 "enum.Flag itself folds a negative argument before the library sees the object), LEB128 |v| < 2^34, bit-field "
                  "values that fit, non-zero elements for zero-terminated arrays (<= 2 elements), char/wchar leaves arbitrary (wchar BMP "
                  "non-surrogate); definitions as in C02; floats only through (a)"}
 
@@ -84,8 +85,9 @@ def constructible(T):
 
 
 class Builder:
-    def __init__(self, ctx, cs, cfg):
+    def __init__(self, ctx, cs, cfg, in_range=False):
         self.ctx, self.cs, self.cfg = ctx, cs, cfg
+        self.in_range = in_range   # constrain every integer leaf to its type's range when it is created
         self.n = 0
         self.leaves = []   # (kind, T, sym, lo, hi) for range-checked integer leaves
         self.L = H.layout(cfg)
@@ -97,6 +99,8 @@ class Builder:
     def int_leaf(self, T, lo, hi, rng=None):
         v = self.ctx.int(self.name(), -BIG if rng is None else rng[0], BIG if rng is None else rng[1])
         self.leaves.append((T, v, lo, hi))
+        if self.in_range and lo is not None:
+            self.ctx.constrain(R.And(v >= lo, v <= hi))   # before the value is used: assumptions are not retroactive
         return v
 
     def build(self, T, libtype, bits=None, nonzero=False):
@@ -124,6 +128,10 @@ class Builder:
             v = self.int_leaf(T, lo, hi)
             if nonzero:
                 ctx.constrain(v != 0)
+            if T[4]:
+                # enum.Flag folds a negative argument into a non-negative value when the object is constructed (CPython,
+                # boundary KEEP) - before the library's writer sees it - so flag objects are built from non-negative integers
+                ctx.constrain(v >= 0)
             return libtype(v), v
         if k == "leb":
             v = ctx.int(self.name(), -(1 << 34), (1 << 34))
